@@ -201,7 +201,7 @@ def subsets_exhaustive():
 
 # ---------------------------------------------------------------------------------------------
 # crash enumeration
-def crash_case(acc, r, tag, with_previous, chunked, route="save-profile"):
+def crash_case(acc, r, tag, with_previous, chunked, route="save-profile", prev_fmt="json"):
     """Count the ticks of one save, then kill a child at every tick and judge the reopened profile."""
     from yowsup.config.manager import ConfigManager
     from yowsup.config.v1.config import Config
@@ -210,7 +210,7 @@ def crash_case(acc, r, tag, with_previous, chunked, route="save-profile"):
     fresh_xdg("crash")
     sub_old = gen.subset(r, OPTIONAL)
     sub_new = gen.subset(r, OPTIONAL)
-    old = Config(**gen_values(r, sub_old, "json"))
+    old = Config(**gen_values(r, sub_old, "json" if prev_fmt == "json" else "keyval"))
     newv = gen_values(r, sub_new, "json")
     newv["phone"] = old.phone
     new = Config(**newv)
@@ -222,7 +222,12 @@ def crash_case(acc, r, tag, with_previous, chunked, route="save-profile"):
     def prepare():
         shutil.rmtree(base, ignore_errors=True)
         os.makedirs(base)
-        if with_previous:
+        if with_previous and prev_fmt == "keyval":
+            # the previous configuration is a key=value file in the profile directory (config.yo), the other supported format
+            d_ = tools.StorageTools.getStorageForProfile(profile)
+            os.makedirs(d_, exist_ok=True)
+            cm.save(profile, old, ConfigManager.TYPE_KEYVAL, dest=os.path.join(d_, "config.yo"))
+        elif with_previous:
             cm.save(profile, old)
         else:
             # the profile directory exists (key store lives there) but holds no configuration yet
@@ -268,7 +273,9 @@ def crash_case(acc, r, tag, with_previous, chunked, route="save-profile"):
     acc.maxi("crash_points_per_save", total)
     for k in counter.kinds:
         acc.count("crash_point_kind:" + k.split(":")[0])
-    w0 = {"op": "crash", "tag": tag, "with_previous": with_previous, "chunked": chunked, "route": route, "total_ticks": total}
+    w0 = {"op": "crash", "tag": tag, "with_previous": with_previous, "chunked": chunked, "route": route, "total_ticks": total, "prev_fmt": prev_fmt}
+    acc.count("crash_prev_fmt:%s" % (prev_fmt if with_previous else "none"))
+    untyped = prev_fmt == "keyval"
     for k in range(1, total + 1):
         prepare()
         tk = inject.Ticker(die_at=k)
@@ -286,7 +293,7 @@ def crash_case(acc, r, tag, with_previous, chunked, route="save-profile"):
         except Exception as e:  # noqa
             acc.violation("crash-load-raises:%s" % type(e).__name__, "after a kill at %s the profile no longer loads: %r" % (kind, e), w)
             continue
-        d_old = cfg_diff(old if with_previous else None, back)
+        d_old = cfg_diff(old if with_previous else None, back, untyped) if (with_previous and back is not None) or not with_previous else "nothing loads"
         d_new = cfg_diff(new, back)
         if d_old is None and (with_previous or back is None):
             acc.count("crash_outcome:old")
@@ -299,7 +306,8 @@ def crash_case(acc, r, tag, with_previous, chunked, route="save-profile"):
     prepare()
     do_save(inject.Ticker())
     if cfg_diff(new, ConfigManager().load(profile)):
-        acc.violation("crash-nocrash-differs", "uninterrupted save did not store the new configuration", w0)
+        acc.violation("crash-nocrash-differs:prev-%s" % (prev_fmt if with_previous else "none"), "after an uninterrupted save by profile name the profile does not load as the new configuration "
+                      "(previous configuration: %s)" % (("config.yo" if prev_fmt == "keyval" else "config.json") if with_previous else "none"), w0)
 
 
 def shards(tier, seed, nworkers):
@@ -342,7 +350,7 @@ def run(spec, acc):
         for i in range(spec["n"]):
             r = gen.rng(seed, ID, "crash/%d/%d" % (spec["shard"], i))
             crash_case(acc, r, "crash/%d/%d" % (spec["shard"], i), with_previous=(i % 4 != 3), chunked=(i % 2 == 0),
-                       route="save-profile" if i % 3 else "profile-object")
+                       route="save-profile" if i % 3 else "profile-object", prev_fmt="keyval" if i % 5 == 1 else "json")
         acc.sample({"crash": "every line/open/chunk/close/rename boundary of one save, previous config present or not"})
 
 
@@ -360,4 +368,4 @@ def replay(spec, acc):
         r.random()
         roundtrip(acc, r, w["subset"], w["fmt"], w["route"], w["loadpath"], w["used_before"], tag)
     else:
-        crash_case(acc, r, tag, w["with_previous"], w["chunked"], w["route"])
+        crash_case(acc, r, tag, w["with_previous"], w["chunked"], w["route"], w.get("prev_fmt", "json"))
